@@ -1,9 +1,199 @@
-import ZoektModel.C30.Spec
+/-
+C30 — The indexing queue behaves as a priority queue.
+
+Statement: the indexing queue yields each enqueued repository once per enqueue, yields repositories whose latest
+options are not yet indexed before up-to-date ones and non-failed before failed ones (first-in first-out
+otherwise), honours failure backoff, and after being told which repositories still exist it tracks exactly those.
+Quantifier: all sequences of add/update, pop, bump, mark-indexed (success and failure) and remove-missing
+operations, including operations on repositories the queue does not know.
+
+Model: C30/Model.lean (queue.go, backoff.go and the container/heap functions they drive, `heapIdx` maintained by
+`Swap`/`Push`/`Pop` as in the Go text; `MaybeRemoveMissing` as fixed).  Lemmas: C30/Lemmas, Heap, Ops, Steps.
+-/
+import ZoektModel.C30.Steps
 namespace ZoektModel.C30
 
-/-- `lessQueueItemPriority` is exactly the order the statement prescribes -/
-theorem lessPrio_eq_rank (x y : Item) : lessPrio x y = rankLt (rank x) (rank y) := by
-  unfold lessPrio rankLt rank
-  cases x.indexed <;> cases y.indexed <;> cases hx : (x.state == stFail) <;> cases hy : (y.state == stFail) <;> simp
+/-- every state reachable from `NewQueue` by any operation history -/
+def Reachable (q : Q) : Prop := ∃ d m ops, q = run (newQ d m) ops
+
+theorem reachable_wf {q : Q} (h : Reachable q) : WF q := by
+  obtain ⟨d, m, ops, rfl⟩ := h
+  exact wf_run _ ops (wf_newQ d m)
+
+/-- **heapIdx bookkeeping** (anchor state `heapIdx`: position in heap or -1), for every operation history:
+    slot `i` of the heap holds a tracked repository whose item records `heapIdx = i`, no repository is in the heap
+    twice, every tracked repository outside the heap records `-1`, and map keys are distinct -/
+theorem heapIdx_consistent (d m : Int) (ops : List Op) : Cons (run (newQ d m) ops) :=
+  (reachable_wf ⟨d, m, ops, rfl⟩).1
+
+/-- **the heap array is heap-ordered** for `lessQueueItemPriority`, for every operation history -/
+theorem heap_ordered (d m : Int) (ops : List Op) (k : Nat) (hk0 : 0 < k) (hk : k < (run (newQ d m) ops).pq.length) :
+    less (run (newQ d m) ops) k ((k - 1) / 2) = false :=
+  (reachable_wf ⟨d, m, ops, rfl⟩).2 k hk0 hk
+
+/-- `lessQueueItemPriority` is the lexicographic order the statement prescribes: not-indexed first, then
+    non-failed, then first-in -/
+theorem lessPrio_is_prescribed_order (x y : Item) : lessPrio x y = rankLt (rank x) (rank y) := lessPrio_eq_rank x y
+
+/-- … and a strict weak order (irreflexive, transitive, incomparability transitive) -/
+theorem lessPrio_strict_weak_order (q : Q) : SWO (lessId q) := lessId_swo q
+
+/-- **Pop yields a minimum, once**: in every reachable state `Pop` returns `none` exactly when nothing is queued;
+    otherwise it returns the options of a queued repository `a` such that no queued repository is strictly
+    preferred to it, `a` is no longer queued afterwards, and every other queued repository still is -/
+theorem pop_min {q : Q} (h : Reachable q) :
+    ((pop q).2 = none ↔ q.pq = []) ∧
+    ∀ o d, (pop q).2 = some (o, d) →
+      ∃ a, InPq q.pq a ∧ (itemD q a).opts = o ∧
+        (∀ b, InPq q.pq b → lessPrio (itemD q b) (itemD q a) = false) ∧
+        ¬ InPq (pop q).1.pq a ∧ (∀ b, b ≠ a → (InPq (pop q).1.pq b ↔ InPq q.pq b)) := by
+  have hp := pop_spec q (reachable_wf h)
+  refine ⟨hp.2.2.1, ?_⟩
+  intro o d hod
+  obtain ⟨a, h1, h2, _, h4, h5⟩ := hp.2.2.2.1 o d hod
+  refine ⟨a, h1, h2, h4, fun hin => ((h5 a).mp hin).2 rfl, fun b hb => ?_⟩
+  rw [h5 b]; exact ⟨fun h => h.1, fun h => ⟨h, hb⟩⟩
+
+/-- **priority classes and FIFO**: what "no queued repository is strictly preferred" means in the statement's words —
+    if the popped repository's latest options are already indexed then so are those of every queued one; among
+    equally indexed ones a failed one is popped only if all are failed; and within the same class it has the
+    smallest sequence number (first in, first out) -/
+theorem pop_order {q : Q} (h : Reachable q) (o : Opts) (d : Int) (hod : (pop q).2 = some (o, d)) :
+    ∃ a, InPq q.pq a ∧ (itemD q a).opts = o ∧ ∀ b, InPq q.pq b →
+      ((itemD q a).indexed = true → (itemD q b).indexed = true) ∧
+      ((itemD q b).indexed = (itemD q a).indexed → (itemD q a).state = stFail → (itemD q b).state = stFail) ∧
+      ((itemD q b).indexed = (itemD q a).indexed → ((itemD q b).state = stFail ↔ (itemD q a).state = stFail) →
+        (itemD q a).seq ≤ (itemD q b).seq) := by
+  obtain ⟨a, h1, h2, h3, _⟩ := (pop_min h).2 o d hod
+  refine ⟨a, h1, h2, fun b hb => ?_⟩
+  have := h3 b hb
+  rw [lessPrio_eq_rank, rankLt_false_iff] at this
+  simp only [rank] at this
+  refine ⟨?_, ?_, ?_⟩
+  · intro ha
+    cases hbi : (itemD q b).indexed
+    · rw [ha, hbi] at this; simp at this
+    · rfl
+  · intro hi hs
+    rw [hi] at this
+    cases hbs : ((itemD q b).state == stFail)
+    · have has : ((itemD q a).state == stFail) = true := by simpa using hs
+      rw [hbs, has] at this; simp at this
+    · simpa using hbs
+  · intro hi hs
+    rw [hi] at this
+    have e : ((itemD q b).state == stFail) = ((itemD q a).state == stFail) := by
+      cases h1 : ((itemD q b).state == stFail) <;> cases h2 : ((itemD q a).state == stFail) <;> simp_all
+    rw [e] at this
+    simp at this
+    omega
+
+/-- **once per enqueue**: a repository is in the heap at most once -/
+theorem queued_once {q : Q} (h : Reachable q) (i j : Nat) (hi : i < q.pq.length) (hj : j < q.pq.length)
+    (e : q.pq.getD i 0 = q.pq.getD j 0) : i = j :=
+  (reachable_wf h).1.inj i j hi hj e
+
+/-- **backoff is honoured by AddOrUpdate**: the only repository that can enter the heap is the one added, it was not
+    queued, and its `backoffUntil` lies strictly before the clock reading; nothing leaves the heap -/
+theorem backoff_honoured_add {q : Q} (h : Reachable q) (o : Opts) (now : Int) (b : Nat) :
+    (InPq (addOrUpdate q o now).pq b ↔ InPq q.pq b ∨ (b = o.rid ∧ ¬ InPq q.pq o.rid ∧ (itemD q o.rid).untl < now)) :=
+  (addOrUpdate_spec q o now (reachable_wf h)).2.2.1 b
+
+/-- **backoff is honoured by Bump**: exactly the known, unqueued ids whose `backoffUntil` lies strictly before the
+    clock reading enter the heap; the unknown ids are reported -/
+theorem backoff_honoured_bump {q : Q} (h : Reachable q) (ids : List Nat) (now : Int) :
+    (∀ b, InPq (bump q ids now).1.pq b ↔ InPq q.pq b ∨ (b ∈ ids ∧ tracked q b = true ∧ (itemD q b).untl < now)) ∧
+    (bump q ids now).2 = ids.filter (fun id => !tracked q id) :=
+  ⟨(bump_spec q ids now (reachable_wf h)).2.2.2.1, (bump_spec q ids now (reachable_wf h)).2.2.2.2.1⟩
+
+/-- **a failure takes the repository off the queue and starts a backoff** that grows linearly with the number of
+    consecutive failures and is capped: `backoffUntil = now + min((failures+1)·backoffDuration, maxBackoff)`;
+    any other result never queues or unqueues anything -/
+theorem fail_backs_off {q : Q} (h : Reachable q) (o : Opts) (st : Nat) (now : Int) :
+    (∀ b, InPq (setIndexed q o st now).pq b ↔ InPq q.pq b ∧ ¬ (b = o.rid ∧ st = stFail)) ∧
+    (st = stFail → (itemD (setIndexed q o st now) o.rid).untl = now + backoffDur q.dur q.maxB (itemD q o.rid).cf) :=
+  ⟨(setIndexed_spec q o st now (reachable_wf h)).2.2.1, (setIndexed_spec q o st now (reachable_wf h)).2.2.2.1⟩
+
+theorem backoffDur_linear_capped (dur maxB : Int) (cf : Nat) :
+    backoffDur dur maxB cf = min (((cf : Int) + 1) * dur) maxB := by
+  unfold backoffDur; split <;> omega
+
+/-- no operation other than a failure report moves `backoffUntil` of another repository, and the backoff parameters
+    never change: together with the three theorems above, a failed repository cannot re-enter the heap before its
+    `backoffUntil` -/
+theorem backoff_params_constant (d m : Int) (ops : List Op) :
+    (run (newQ d m) ops).dur = (newQ d m).dur ∧ (run (newQ d m) ops).maxB = (newQ d m).maxB := by
+  have : ∀ (ops : List Op) (q : Q), WF q → (run q ops).dur = q.dur ∧ (run q ops).maxB = q.maxB := by
+    intro ops
+    induction ops with
+    | nil => intro q _; exact ⟨rfl, rfl⟩
+    | cons op r ih =>
+      intro q hw
+      have h1 := ih (step q op) (wf_step q op hw)
+      have h2 : (step q op).dur = q.dur ∧ (step q op).maxB = q.maxB := by
+        cases op with
+        | add o now => exact ⟨(addOrUpdate_spec q o now hw).2.2.2.2.2.1, (addOrUpdate_spec q o now hw).2.2.2.2.2.2⟩
+        | idx o st now => exact ⟨(setIndexed_spec q o st now hw).2.2.2.2.2.1, (setIndexed_spec q o st now hw).2.2.2.2.2.2⟩
+        | pop => exact ⟨(pop_spec q hw).2.2.2.2.2.1, (pop_spec q hw).2.2.2.2.2.2⟩
+        | bump ids now => exact ⟨(bump_spec q ids now hw).2.2.2.2.2.1, (bump_spec q ids now hw).2.2.2.2.2.2⟩
+        | rm ids => exact ⟨(removeMissing_spec q ids hw).2.2.2.2.1, (removeMissing_spec q ids hw).2.2.2.2.2⟩
+      exact ⟨h1.1.trans h2.1, h1.2.trans h2.2⟩
+  exact this ops _ (wf_newQ d m)
+
+/-- **remove-missing is exact** (code as fixed): when it runs (the sizes differ) the queue afterwards tracks exactly
+    the tracked repositories that are in `ids`, reports exactly the others, removes them from the heap, and leaves
+    the rest as it was; when the sizes agree it does nothing -/
+theorem remove_missing_exact {q : Q} (h : Reachable q) (ids : List Nat) :
+    (q.items.length = ids.length → removeMissing q ids = (q, [])) ∧
+    (q.items.length ≠ ids.length →
+      (∀ b, tracked (removeMissing q ids).1 b = (tracked q b && ids.contains b)) ∧
+      (∀ b, b ∈ (removeMissing q ids).2 ↔ tracked q b = true ∧ ids.contains b = false) ∧
+      (∀ b, InPq (removeMissing q ids).1.pq b ↔ InPq q.pq b ∧ ids.contains b = true)) := by
+  have hs := removeMissing_spec q ids (reachable_wf h)
+  exact ⟨hs.2.1, fun hne => ⟨(hs.2.2.1 hne).1, (hs.2.2.1 hne).2.1, (hs.2.2.1 hne).2.2.1⟩⟩
+
+/-- after `MaybeRemoveMissing ids` ran and every id of `ids` was added, the queue tracks exactly `ids` -/
+theorem tracks_exactly_after_round {q : Q} (h : Reachable q) (ids : List Nat) (hne : q.items.length ≠ ids.length)
+    (adds : List (Opts × Int)) (hadds : adds.map (·.1.rid) = ids) (b : Nat) :
+    tracked (adds.foldl (fun q a => addOrUpdate q a.1 a.2) (removeMissing q ids).1) b = ids.contains b := by
+  have hs := removeMissing_spec q ids (reachable_wf h)
+  have key : ∀ (adds : List (Opts × Int)) (q' : Q), WF q' →
+      tracked (adds.foldl (fun q a => addOrUpdate q a.1 a.2) q') b = (tracked q' b || (adds.map (·.1.rid)).contains b) := by
+    intro adds
+    induction adds with
+    | nil => intro q' _; simp
+    | cons a r ih =>
+      intro q' hw'
+      simp only [List.foldl_cons, List.map_cons, List.contains_cons]
+      have ha := addOrUpdate_spec q' a.1 a.2 hw'
+      rw [ih _ ha.1, ha.2.1 b, Bool.or_assoc]
+  rw [key adds _ hs.1, (hs.2.2.1 hne).1 b, hadds]
+  cases tracked q b <;> cases ids.contains b <;> rfl
+
+/-- **the text before the fix is wrong** (DESIGN §8): `MaybeRemoveMissing` keyed by `item.opts.RepoID` leaves a repository
+    that `SetIndexed` created tracked although it is not in `ids`, and reports id 0 instead -/
+theorem remove_missing_as_written_false :
+    let q := run (newQ 0 0) [.idx ⟨7, 0⟩ 2 100]
+    tracked (removeMissingAsWritten q []).1 7 = true ∧ (removeMissingAsWritten q []).2 = [0] ∧
+    tracked (removeMissing q []).1 7 = false ∧ (removeMissing q []).2 = [7] := by
+  decide
+
+unseal up down in
+/-- **known finding C30-pop-zero-opts**: `Bump` queues an item that `SetIndexed` created for an unknown repository, and
+    `Pop` then hands out zero-valued options: repository 7 was enqueued, options for repository 0 are yielded -/
+theorem pop_zero_opts_witness :
+    (pop (run (newQ 0 0) [.idx ⟨7, 1⟩ 2 100, .bump [7] 200])).2 = some (Opts.zero, 200) := by
+  decide
+
+/-! non-vacuity: a history exercising every operation, its heap, and a pop in priority order -/
+def exOps : List Op :=
+  [.add ⟨3, 1⟩ 10, .add ⟨1, 1⟩ 11, .add ⟨2, 1⟩ 12, .idx ⟨3, 1⟩ 2 13, .add ⟨5, 1⟩ 14, .idx ⟨1, 1⟩ 1 15,
+   .add ⟨1, 1⟩ 16, .bump [1, 9] 1000, .rm [1, 2, 3], .add ⟨4, 2⟩ 1001]
+
+set_option maxRecDepth 8000 in
+unseal up down in
+example : (run (newQ 5 50) exOps).pq = [2, 4, 3, 1] ∧ ((pop (run (newQ 5 50) exOps)).2.map (·.1)) = some ⟨2, 1⟩ ∧
+    wfB (run (newQ 5 50) exOps) = true := by decide
+example : Reachable (run (newQ 5 50) exOps) := ⟨5, 50, exOps, rfl⟩
 
 end ZoektModel.C30
